@@ -103,11 +103,12 @@ def run(ctx):
                 esc["_dev"] = dev
                 if not covered:
                     rest.append(esc)
-            if rest:
+            for k in range(0, min(len(rest), 1200), 300):      # (beyond that the escapes stay labelled unexplained)
+                chunk = rest[k:k + 300]
                 dr = F.x_run(ctx, NAMES_T, TARGETS_T, 6, dev=(devname,), emit=True, invs=False, tag="MCXrel",
-                             only=[e["arch"] for e in rest][:300])
+                             only=[e["arch"] for e in chunk])
                 devmap = {F.arch_key(e["arch"]): e for e in dr.edges}
-                for esc in rest:
+                for esc in chunk:
                     esc["_dev"] = classify(esc, devmap, devname)
             for esc in escapes:
                 dev = esc.pop("_dev")
